@@ -77,21 +77,24 @@ def main(ctx):
     pb = ctx.build("smatch")
     cases = os.path.join(ctx.scratch, "cases.ndjson")
     with open(cases, "wb") as f:
-        ctx.run([pb, "gen", "-n", "4000" if ctx.quick else "200000"], stdout=f)
+        ctx.run([pb, "gen", "-n", "3000" if ctx.quick else "200000"] + ([] if ctx.quick else ["-full"]), stdout=f)
     ncases = 0
+    ncalls = 0
     classes = set()
     with open(cases) as f:
         for k, line in enumerate(f):
             ncases += 1
             c = json.loads(line)
             classes.add(c["class"])
+            ncalls += 3 + 2 * len(c["chunks"])
             if k % 700 == 1:
                 ctx.sample({"doc": c["doc"], "targets": [path_str(p) for p in c["targets"]]})
     for r in judge(ctx, cases):
         ctx.add(r["api"], r["kind"], r["locus"], r["witness"], case=r["case"])
-    ctx.cov["evaluations"] = ncases * 11
+    ctx.cov["evaluations"] = ncalls
     ctx.cov["distinct_nontrivial"] = len(classes)
-    ctx.cov["rule"] = ("seeded random documents (distinct leaves, depth <= 3, members written in key order with random whitespace) x 1-2 "
+    ctx.cov["rule"] = ("a target-pair matrix (31 menu paths incl. two descents, two unions, filter targets, crossed pairwise in both orders over 4 "
+                       "documents built for them) plus seeded random documents (distinct leaves, depth <= 3, members written in key order with random whitespace) x 1-2 "
                        "target paths of 1-3 fragments over child, index (also negative), wildcard, union, slice (also negative bounds), "
                        "descent and trailing filter; each run through oj.Match, oj.MatchString, sen.Match and oj/sen.MatchLoad with "
                        "whole, 1-byte, 3-byte and half reads (11 calls per case). distinct_nontrivial = distinct fragment-kind "
